@@ -30,6 +30,8 @@ func init() {
 		out["builders"] = builderFacts(repo)
 		out["globalwrites"] = globalWriteFacts(repo)
 		out["errdrops"] = errDropFacts(repo)
+		out["lazyctors"] = lazyCtorFacts(repo)
+		out["observerwrites"] = observerWriteFacts(repo)
 		enc := json.NewEncoder(os.Stdout)
 		enc.SetIndent("", " ")
 		enc.Encode(out)
@@ -365,7 +367,6 @@ func typeCacheFacts(repo string) map[string]interface{} {
 	return map[string]interface{}{"cacheWriters": rows}
 }
 
-
 // builderFacts: every method `func (block *Block) NewX(params) *T` of package ir must be a pure delegation to the free
 // constructor of the same name: `v := NewX(params...)` with the parameters passed unchanged and in order, then
 // `block.Insts = append(block.Insts, v)` or `block.Term = v`, then `return v` - and nothing else.
@@ -382,8 +383,17 @@ func builderFacts(repo string) []map[string]interface{} {
 			if !ok {
 				continue
 			}
-			if id, ok := st.X.(*ast.Ident); !ok || id.Name != "Block" {
+			id, ok := st.X.(*ast.Ident)
+			if !ok || (id.Name != "Block" && id.Name != "Func" && id.Name != "Module") {
 				continue
+			}
+			recvType := id.Name
+			if recvType == "Module" && fd.Name.Name == "NewTypeDef" {
+				continue // no free constructor exists: it names the given type and lists it
+			}
+			recv := ""
+			if len(fd.Recv.List[0].Names) == 1 {
+				recv = fd.Recv.List[0].Names[0].Name
 			}
 			why := ""
 			var params []string
@@ -397,8 +407,12 @@ func builderFacts(repo string) []map[string]interface{} {
 				}
 			}
 			body := fd.Body.List
-			if len(body) != 3 {
-				why = fmt.Sprintf("%d statements instead of 3", len(body))
+			want := 3
+			if recvType == "Func" || (recvType == "Module" && fd.Name.Name == "NewFunc") {
+				want = 4 // sets the Parent field too
+			}
+			if len(body) != want {
+				why = fmt.Sprintf("%d statements instead of %d", len(body), want)
 			} else {
 				as, ok := body[0].(*ast.AssignStmt)
 				var v string
@@ -419,19 +433,46 @@ func builderFacts(repo string) []map[string]interface{} {
 						}
 					}
 				}
-				if why == "" {
+				for _, st := range body[1 : len(body)-1] {
+					if why != "" {
+						break
+					}
+					s1 := strings.Join(strings.Fields(src(fset, st)), " ")
+					okStmt := false
+					if s1 == fmt.Sprintf("%s.Parent = %s", v, recv) && want == 4 {
+						okStmt = true
+					}
+					if recvType == "Block" && s1 == fmt.Sprintf("%s.Term = %s", recv, v) {
+						okStmt = true
+					}
+					if as, ok := st.(*ast.AssignStmt); ok && len(as.Lhs) == 1 && len(as.Rhs) == 1 {
+						lhs := src(fset, as.Lhs[0])
+						if strings.HasPrefix(lhs, recv+".") && s1 == fmt.Sprintf("%s = append(%s, %s)", lhs, lhs, v) {
+							okStmt = true
+						}
+					}
+					if !okStmt {
+						why = "statement is neither the insertion into the receiver nor the Parent link: " + s1
+					}
+				}
+				if why == "" && want == 4 {
 					s1 := strings.Join(strings.Fields(src(fset, body[1])), " ")
-					if s1 != fmt.Sprintf("block.Insts = append(block.Insts, %s)", v) && s1 != fmt.Sprintf("block.Term = %s", v) {
-						why = "second statement is not the insertion into the block: " + s1
+					s2 := strings.Join(strings.Fields(src(fset, body[2])), " ")
+					if (s1 == fmt.Sprintf("%s.Parent = %s", v, recv)) == (s2 == fmt.Sprintf("%s.Parent = %s", v, recv)) {
+						why = "does not both link the Parent and insert into the receiver"
 					}
 				}
 				if why == "" {
-					if strings.Join(strings.Fields(src(fset, body[2])), " ") != "return "+v {
+					if strings.Join(strings.Fields(src(fset, body[len(body)-1])), " ") != "return "+v {
 						why = "does not return the constructed value"
 					}
 				}
 			}
-			out = append(out, map[string]interface{}{"name": fd.Name.Name, "delegates": why == "", "why": why})
+			name := fd.Name.Name
+			if recvType != "Block" {
+				name = recvType + "." + name
+			}
+			out = append(out, map[string]interface{}{"name": name, "delegates": why == "", "why": why})
 		}
 	}
 	sort.Slice(out, func(i, j int) bool { return out[i]["name"].(string) < out[j]["name"].(string) })
@@ -539,7 +580,6 @@ func globalWriteFacts(repo string) []map[string]interface{} {
 	return out
 }
 
-
 // errDropFacts: in package asm every statement INSIDE A LOOP that assigns the variable `err` (`x, err := f()`, `x, err = f()`) must be followed
 // IMMEDIATELY, in the same block, by `if err != nil { ... }` (or be the init statement of such an if): otherwise a later assignment
 // may overwrite the error and a faulty input would be accepted. Lists the assignments for which this is not the case.
@@ -616,5 +656,158 @@ func errDropFacts(repo string) []map[string]interface{} {
 			walkBlock(fd.Name.Name, fd.Body.List)
 		}
 	}
+	return out
+}
+
+// lazyCtorFacts: free constructors `func NewX(...) *T` of package ir whose struct T has a cached `Typ` field but whose body
+// never calls `.Type()`: the cache would then be filled by the first OBSERVER (Type/String/print), at whatever state the
+// object has at that moment.
+func lazyCtorFacts(repo string) []map[string]interface{} {
+	fset, files := parseDir(repo, "ir")
+	hasTyp := map[string]bool{}
+	for _, f := range files {
+		for _, d := range f.Decls {
+			gd, ok := d.(*ast.GenDecl)
+			if !ok || gd.Tok != token.TYPE {
+				continue
+			}
+			for _, sp := range gd.Specs {
+				ts := sp.(*ast.TypeSpec)
+				st, ok := ts.Type.(*ast.StructType)
+				if !ok {
+					continue
+				}
+				for _, fl := range st.Fields.List {
+					for _, n := range fl.Names {
+						if n.Name == "Typ" {
+							hasTyp[ts.Name.Name] = true
+						}
+					}
+				}
+			}
+		}
+	}
+	var out []map[string]interface{}
+	for _, f := range files {
+		for _, d := range f.Decls {
+			fd, ok := d.(*ast.FuncDecl)
+			if !ok || fd.Recv != nil || fd.Body == nil || !strings.HasPrefix(fd.Name.Name, "New") || fd.Type.Results == nil || len(fd.Type.Results.List) != 1 {
+				continue
+			}
+			st, ok := fd.Type.Results.List[0].Type.(*ast.StarExpr)
+			if !ok {
+				continue
+			}
+			id, ok := st.X.(*ast.Ident)
+			if !ok || !hasTyp[id.Name] {
+				continue
+			}
+			calls := false
+			setsTyp := false
+			ast.Inspect(fd.Body, func(n ast.Node) bool {
+				switch x := n.(type) {
+				case *ast.CallExpr:
+					if sel, ok := x.Fun.(*ast.SelectorExpr); ok && sel.Sel.Name == "Type" && len(x.Args) == 0 {
+						if _, ok := sel.X.(*ast.Ident); ok {
+							calls = true
+						}
+					}
+				case *ast.KeyValueExpr:
+					if k, ok := x.Key.(*ast.Ident); ok && k.Name == "Typ" {
+						setsTyp = true
+					}
+				}
+				return true
+			})
+			if !calls && !setsTyp {
+				out = append(out, map[string]interface{}{"ctor": fd.Name.Name, "type": id.Name, "file": filepath.Base(fset.Position(fd.Pos()).Filename)})
+			}
+		}
+	}
+	sort.Slice(out, func(i, j int) bool { return out[i]["ctor"].(string) < out[j]["ctor"].(string) })
+	return out
+}
+
+// observerWriteFacts: methods of the printing packages that WRITE a field of their receiver (assignment to `recv.F`, to an index / sub-field of it,
+// `recv.F++`, or an append stored into it) although they are observers: every method except setters (Set*), constructors / builders (New*),
+// the numbering pass (Assign*), and the lazily caching `Type()` methods writing the cache field `Typ` only (what those may cache is checked
+// dynamically by hist.fobs). An observer that stores into its receiver makes the printed text depend on the history of queries and races with
+// concurrent printers.
+func observerWriteFacts(repo string) []map[string]interface{} {
+	var out []map[string]interface{}
+	for _, dir := range []string{"ir", "ir/types", "ir/constant", "ir/metadata", "ir/enum", "ir/value", "internal/enc"} {
+		fset, files := parseDir(repo, dir)
+		for _, f := range files {
+			for _, d := range f.Decls {
+				fd, ok := d.(*ast.FuncDecl)
+				if !ok || fd.Body == nil || fd.Recv == nil || len(fd.Recv.List) != 1 || len(fd.Recv.List[0].Names) != 1 {
+					continue
+				}
+				name := fd.Name.Name
+				if strings.HasPrefix(name, "Set") || strings.HasPrefix(name, "New") || strings.HasPrefix(name, "Assign") {
+					continue
+				}
+				recv := fd.Recv.List[0].Names[0].Name
+				rtype := strings.TrimPrefix(src(fset, fd.Recv.List[0].Type), "*")
+				// writes to `recv.<path>`: returns the first field of the path
+				field := func(e ast.Expr) (string, bool) {
+					first := ""
+					for {
+						switch x := e.(type) {
+						case *ast.IndexExpr:
+							e = x.X
+						case *ast.StarExpr:
+							e = x.X
+						case *ast.ParenExpr:
+							e = x.X
+						case *ast.SelectorExpr:
+							first = x.Sel.Name
+							e = x.X
+						case *ast.Ident:
+							return first, x.Name == recv && first != ""
+						default:
+							return "", false
+						}
+					}
+				}
+				seen := map[string]bool{}
+				add := func(fld string, pos token.Pos) {
+					if name == "Type" && fld == "Typ" {
+						return
+					}
+					key := fld
+					if seen[key] {
+						return
+					}
+					seen[key] = true
+					out = append(out, map[string]interface{}{"pkg": dir, "type": rtype, "method": name, "field": fld, "line": fset.Position(pos).Line})
+				}
+				ast.Inspect(fd.Body, func(n ast.Node) bool {
+					switch x := n.(type) {
+					case *ast.AssignStmt:
+						if x.Tok == token.DEFINE {
+							return true
+						}
+						for _, l := range x.Lhs {
+							if fld, ok := field(l); ok {
+								add(fld, l.Pos())
+							}
+						}
+					case *ast.IncDecStmt:
+						if fld, ok := field(x.X); ok {
+							add(fld, x.Pos())
+						}
+					}
+					return true
+				})
+			}
+		}
+	}
+	sort.Slice(out, func(i, j int) bool {
+		a, b := out[i], out[j]
+		ka := a["pkg"].(string) + "." + a["type"].(string) + "." + a["method"].(string) + "." + a["field"].(string)
+		kb := b["pkg"].(string) + "." + b["type"].(string) + "." + b["method"].(string) + "." + b["field"].(string)
+		return ka < kb
+	})
 	return out
 }
